@@ -380,8 +380,12 @@ Definition entry_event_table : list (string * Z * Z) :=
 Definition structure_ok : bool :=
   (forallb (fun e => let '(_, body, _, abort) := e in locked_pruned body && abort) entry_points &&
    Nat.eqb (length entry_points) 5 &&
+   (* updateContainers is exactly: lock, deferred unlock, hand the request's list to the call-back *)
    locked update_containers_body &&
-   existsb (String.eqb "return r.updateFn(ctx, req)") update_containers_body &&
+   (match update_containers_body with
+    | [_; _; c] => String.eqb c "return r.updateFn(ctx, req)"
+    | _ => false
+    end) &&
    forallb (fun s => forallb (fun b : bool => b) (snd s)) relay_shapes &&
    Nat.eqb (length relay_shapes) 5 &&
    (* the thirteen entry points reach the plugins under thirteen different event numbers
